@@ -194,3 +194,5 @@ def resolveTop (g : GoTy) (params : List Char) : Except Err Ty :=
   | .ok info => .ok (resolve false g info)
 
 end Tls
+
+deriving instance DecidableEq for Tls.GoTy, Tls.GoFields
